@@ -1,4 +1,4 @@
-//@unit U14 props=C01,C02 RenetClient::from_channels: channel kinds wired as configured (renet/src/remote_connection.rs)
+//@unit U14 props=C01,C02,C13,C14 RenetClient::from_channels: channel kinds wired as configured (renet/src/remote_connection.rs)
 #![feature(allocator_api)]
 #![allow(unused_imports, dead_code, unused_variables, unused_mut)]
 use vstd::prelude::*;
@@ -94,12 +94,12 @@ impl RenetClient {
 //@entry
         let ghost scfg = send_channels_config@;
         let ghost rcfg = receive_channels_config@;
-//@loop 1 iter=it1
+//@loop 1 iter=it1 over=send_channels_config\.iter\(\)
             invariant
                 it1.seq().len() == scfg.len(),
                 forall|i: int| 0 <= i < scfg.len() ==> *(#[trigger] it1.seq()[i]) == scfg[i],
                 channel_send_order@.len() == it1.index(),
-                forall|j: int| 0 <= j < it1.index() ==> channel_send_order@[j] == order_entry(#[trigger] scfg[j]),
+                forall|j: int| 0 <= j < it1.index() ==> channel_send_order@[j] == order_entry(#[trigger] scfg[j]),   // @C01,C02,C14 from_channels.send_order_follows_configuration
                 forall|j: int| 0 <= j < it1.index() ==> match #[trigger] channel_send_order@[j] {
                     ChannelOrder::Reliable(c) => send_reliable_channels@.contains_key(c),
                     ChannelOrder::Unreliable(c) => send_unreliable_channels@.contains_key(c),
@@ -116,7 +116,7 @@ impl RenetClient {
                 // the id of this entry is not in either table yet: every id present belongs to an earlier, different entry
                 assert(!srel0.contains_key(channel_config.channel_id) && !sunrel0.contains_key(channel_config.channel_id));
             }
-//@loop 2 iter=it2
+//@loop 2 iter=it2 over=receive_channels_config\.iter\(\)
             invariant
                 it2.seq().len() == rcfg.len(),
                 forall|i: int| 0 <= i < rcfg.len() ==> *(#[trigger] it2.seq()[i]) == rcfg[i],
